@@ -1,16 +1,22 @@
 ------------------------------ MODULE Observe ------------------------------
 (* C13 -- looking at a test result never changes its verdict or its inputs.
 
-   A test of a given kind on given inputs is evaluated into a result whose
-   ABSTRACT STATE is
+   A test of a given kind on given inputs yields a result -- OBTAINED in one
+   of the legitimate ways (`origin`): returned by evaluate(), constructed
+   directly from the recorded statistics with the optional arguments of the
+   result class left to their documented defaults, or loaded back from a
+   pickle -- whose ABSTRACT STATE is
         abs = [verdict, stats, data]
    the verdict (bool), the recorded statistics (arrays / classifications, as
    a digest) and the datasets / inputs it was computed from (digest).  After
    that, any number of read-only operations is applied in any order:
-        bool, oracles, counts,                  \* accessors
-        table(v), plot(v), full(v), rst(v)      \* representations at verbosity v
+        bool, oracles, counts, data,            \* accessors (of the result / of its test)
+        table(v), plot(v), full(v), rst(v),     \* representations at verbosity v
+        draw(v)                                 \* ... drawn by the plotting back-end
         fingerprint, copy, pickle,              \* identity / duplication
-        reeval                                  \* evaluating the test again
+        reeval                                  \* obtaining the result again, in the same way
+   (the sets of operation names are constants: the harness binds each name to
+   the whole family of public read-only calls it stands for)
    C13 says: every one of them is a stuttering step of `abs`
         ReadOnly == [][pc = "ready" => UNCHANGED abs]_vars
    copies / unpickled results / a second evaluation carry the same abstract
@@ -23,6 +29,7 @@
 EXTENDS Integers, Sequences, FiniteSets, TLC
 
 CONSTANTS Kinds,     \* result kinds
+          Origins,   \* ways of obtaining the result ("evaluate", "direct", "unpickled")
           AlwaysBad, \* kinds that have no successful variant (a failed evaluation)
           PlainOps,  \* read-only operations without verbosity
           VerbOps,   \* representations: take a verbosity
@@ -30,33 +37,35 @@ CONSTANTS Kinds,     \* result kinds
           MaxLen     \* length of the operation sequences
 
 VARIABLES kind,  \* the kind of result
+          origin,\* how the result object is obtained
           good,  \* whether the inputs are such that the test passes
-          pc,    \* "new" (not evaluated) / "ready"
+          pc,    \* "new" (not obtained yet) / "ready"
           abs,   \* abstract state of the result
           dup,   \* abstract state of the last duplicate produced (copy / pickle / reeval)
           hist   \* operations applied so far
-vars == <<kind, good, pc, abs, dup, hist>>
+vars == <<kind, origin, good, pc, abs, dup, hist>>
 
 NoVerb == 9
 Ops == {[op |-> o, verb |-> NoVerb] : o \in PlainOps} \cup {[op |-> o, verb |-> v] : o \in VerbOps, v \in Verbs}
 Duplicating == {"copy", "pickle", "reeval"}
 
-(* evaluation is a function of the inputs *)
-AbsOf(k, g) == [verdict |-> g, stats |-> <<"stats", k, g>>, data |-> <<"data", k, g>>]
-Unset == [verdict |-> FALSE, stats |-> <<"none", "", FALSE>>, data |-> <<"none", "", FALSE>>]
+(* the result is a function of the inputs and of the way it is obtained; the verdict of the inputs alone *)
+AbsOf(k, o, g) == [verdict |-> g, stats |-> <<"stats", k, o, g>>, data |-> <<"data", k, o, g>>]
+Unset == [verdict |-> FALSE, stats |-> <<"none", "", "", FALSE>>, data |-> <<"none", "", "", FALSE>>]
 
 Init == /\ kind \in Kinds
+        /\ origin \in Origins
         /\ good \in IF kind \in AlwaysBad THEN {FALSE} ELSE BOOLEAN
         /\ pc = "new" /\ abs = Unset /\ dup = Unset /\ hist = <<>>
 
 Evaluate == /\ pc = "new" /\ pc' = "ready"
-            /\ abs' = AbsOf(kind, good) /\ dup' = AbsOf(kind, good)
-            /\ UNCHANGED <<kind, good, hist>>
+            /\ abs' = AbsOf(kind, origin, good) /\ dup' = AbsOf(kind, origin, good)
+            /\ UNCHANGED <<kind, origin, good, hist>>
 
 Read(o) == /\ pc = "ready" /\ Len(hist) < MaxLen
            /\ hist' = Append(hist, o)
            /\ dup' = IF o.op \in Duplicating THEN abs ELSE dup
-           /\ UNCHANGED <<kind, good, pc, abs>>
+           /\ UNCHANGED <<kind, origin, good, pc, abs>>
 
 Next == Evaluate \/ \E o \in Ops : Read(o)
 Spec == Init /\ [][Next]_vars
@@ -64,11 +73,12 @@ Spec == Init /\ [][Next]_vars
 -----------------------------------------------------------------------------
 (* C13 *)
 ReadOnly == [][pc = "ready" => UNCHANGED abs]_vars
-Deterministic == pc = "ready" => dup = abs /\ abs = AbsOf(kind, good)
+Deterministic == pc = "ready" => dup = abs /\ abs = AbsOf(kind, origin, good)
 VerdictIsTruth == pc = "ready" => abs.verdict = good
 
 (* witnesses (negated reachability): TLC must find them violated *)
 W_ReprThenBool == ~(\E i, j \in DOMAIN hist : i < j /\ hist[i].op \in VerbOps /\ hist[j].op = "bool" /\ good)
+W_OtherOrigin == ~(origin # "evaluate" /\ \E i, j \in DOMAIN hist : i < j /\ hist[i].op = "oracles" /\ hist[j].op \in VerbOps)
 W_AllVerbs == ~(/\ Len(hist) = MaxLen
                 /\ \A i \in DOMAIN hist : hist[i].op \in VerbOps
                 /\ Cardinality({hist[j].verb : j \in DOMAIN hist}) = IF Cardinality(Verbs) < MaxLen THEN Cardinality(Verbs) ELSE MaxLen)
